@@ -217,15 +217,49 @@ func c01Gen(c *Ctx) {
 	for _, f := range []string{"tests/data/binary/HelloWorld.efi", "tests/data/binary/HelloWorld.efi.signed", "tests/data/binary/test.pecoff", "authenticode/testdata/test.pecoff", "authenticode/testdata/test.pecoff.signed", "tests/data/binary/linuxx64.efi.stub"} {
 		c01Eval(c, Case{"op": "file", "path": f})
 	}
+	// images laid out so that a boundary between two hashed parts falls exactly on a multiple of a
+	// read size in the hashed stream (io.Copy reads 32 KiB at a time; bytes.Buffer grows from 512):
+	// a reader that mishandles "offset == end of part" is silent everywhere else
+	for i := 0; i < c.N(4, 150) && c.NFailures() < 8; i++ {
+		s := genPeSpec(c, false)
+		for len(s.SecSizes) < 2 {
+			s.SecSizes = append(s.SecSizes, 1+c.Rng.Intn(900))
+			s.Gaps = append(s.Gaps, 0)
+			s.HdrOrder = append(s.HdrOrder, len(s.HdrOrder))
+		}
+		for j := 0; j < len(s.SecSizes) && j < 3; j++ {
+			for _, a := range []int{32768, 512} {
+				if a == 512 && !c.Thorough && j > 0 {
+					continue
+				}
+				c01Eval(c, specCase(alignSpec(s, j, a)))
+			}
+		}
+	}
 	for i := 0; i < c.N(500, 30000) && c.NFailures() < 8; i++ {
 		s := genPeSpec(c, i%25 == 0)
 		c01Eval(c, specCase(s))
 	}
 }
 
+// alignSpec grows section j (file order) so that it ends at file offset = 12 (mod a): in the hashed
+// stream, which omits the 4 checksum bytes and the 8 directory-entry bytes, the boundary after it
+// then sits on a multiple of a
+func alignSpec(s peSpec, j, a int) peSpec {
+	t := s
+	t.SecSizes = append([]int{}, s.SecSizes...)
+	b := buildPE(t)
+	end := b.secOff[j] + t.SecSizes[j]
+	t.SecSizes[j] += ((12-end)%a + a) % a
+	if t.SecSizes[j] == s.SecSizes[j] && end < a {
+		t.SecSizes[j] += a
+	}
+	return t
+}
+
 func init() {
 	register("C01", &PropDef{
-		Rule:   "generated well-formed images over {PE32, PE32+} x e_lfanew {0x40, 0x48, 0x80, random} x 5..16 data directories x 0..8 (thorough: ..96) sections x size classes {0,1,7,8,9,512,random, >32 KiB and >64 KiB every 25th image so that io.Copy's 32 KiB reads cross part boundaries} x header order (random permutation / file order) x gaps x SizeOfHeaders slack x trailing length {0,1,7,8,9,random} x certificate table {none, 1, 2 entries} x 3 machine types; the repository's binaries; per image ~25 stratified byte changes (header fields, checksum, directory entry, section table, slack, section boundaries, gaps, tail, certificate table). Non-trivial: image longer than 256 bytes / every flip; distinct = distinct specs and (image, position, mask).",
+		Rule:   "generated well-formed images over {PE32, PE32+} x e_lfanew {0x40, 0x48, 0x80, random} x 5..16 data directories x 0..8 (thorough: ..96) sections x size classes {0,1,7,8,9,512,random, >32 KiB and >64 KiB every 25th image so that io.Copy's 32 KiB reads cross part boundaries} x part boundaries aligned to 32 KiB / 512 B in the hashed stream (section ends at offset = 12 mod the read size) x header order (random permutation / file order) x gaps x SizeOfHeaders slack x trailing length {0,1,7,8,9,random} x certificate table {none, 1, 2 entries} x 3 machine types; the repository's binaries; per image ~25 stratified byte changes (header fields, checksum, directory entry, section table, slack, section boundaries, gaps, tail, certificate table). Non-trivial: image longer than 256 bytes / every flip; distinct = distinct specs and (image, position, mask).",
 		Assume: []string{"debug/pe.NewFile accepts the generated headers (machine type from its whitelist, no symbol table, no relocations, section names not starting with '/')", "SHA-256 does not collide on the pre-images compared"},
 		Eval:   c01Eval, Gen: c01Gen,
 	})
